@@ -219,12 +219,14 @@ def _is_ligature_mark(glyph):
 
 def _bounds(component, glyph_set):
     """Return the (xmin, ymin) of the bounds of `component`."""
-    if hasattr(component, "bounds"):  # e.g. defcon
-        return component.bounds[:2]
-    elif hasattr(component, "draw"):  # e.g. ufoLib2
+    if hasattr(component, "draw"):  # e.g. ufoLib2, defcon
+        # resolve the base glyph in the glyph set being processed: for a sparse
+        # layer the component's own (defcon) layer may not contain it
         pen = fontTools.pens.boundsPen.BoundsPen(glyphSet=glyph_set)
         component.draw(pen)
         return pen.bounds[:2]
+    elif hasattr(component, "bounds"):
+        return component.bounds[:2]
     else:
         raise ValueError(
             f"Don't know to to compute the bounds of component '{component}' "
